@@ -1104,6 +1104,20 @@ func (in *Interp) equal(fr *frame, a, b Value) *Term {
 		if y, ok := b.(*Term); ok {
 			return Eq(x, y)
 		}
+		// an integer word read as a pointer (unsafe retyping) against a real pointer: equal
+		// to nil iff zero; never equal to the address of a heap cell (cell addresses are not
+		// modelled; a data word that happens to equal one is outside every claim)
+		if x.w == 64 {
+			switch y := b.(type) {
+			case *Value:
+				if y == nil {
+					return Eq(x, BV(64, 0))
+				}
+				return FalseT
+			case CastPtr:
+				return in.equal(fr, a, y.p)
+			}
+		}
 	case string:
 		if y, ok := b.(string); ok {
 			return Bool(x == y)
@@ -1846,6 +1860,9 @@ func isInvalid(t types.Type) bool {
 // ---- type assertions ----
 
 func (in *Interp) typeAssert(fr *frame, x *ssa.TypeAssert) Value {
+	if fab, ok := fr.get(x.X).(FabIface); ok {
+		return in.typeAssertFab(fr, x, fab)
+	}
 	v := fr.get(x.X).(Iface)
 	var ok bool
 	var res Value
@@ -1873,6 +1890,60 @@ func (in *Interp) typeAssert(fr *frame, x *ssa.TypeAssert) Value {
 			from = v.t.String()
 		}
 		panic(&goPanic{val: fmt.Sprintf("interface conversion: interface is %s, not %s", from, x.AssertedType), kind: "typeassert", site: fr.site()})
+	}
+	return res
+}
+
+// typeAssertFab: assertion on an interface value whose itab goom fabricated. The runtime
+// compares the itab's concrete type word with the asserted type; the fabricated itab
+// names a real type there (read from a reflect.Type), so the verdict is decided by it.
+func (in *Interp) typeAssertFab(fr *frame, x *ssa.TypeAssert, fab FabIface) Value {
+	if _, isIface := x.AssertedType.Underlying().(*types.Interface); isIface {
+		panic(pathAbort{"unsupported: interface-to-interface assertion on a fabricated itab at " + fr.site()})
+	}
+	var dyn types.Type
+	if tp, ok := fab.tab.(*Value); ok && tp != nil {
+		if st, ok := (*tp).(*Struct); ok && len(st.f) > 1 {
+			w := st.f[1]
+			for {
+				c, ok := w.(CastPtr)
+				if !ok {
+					break
+				}
+				w = c.p
+			}
+			if cp, ok := w.(*Value); ok && cp != nil {
+				w = *cp
+			}
+			if rt, ok := w.(*RType); ok {
+				dyn = rt.t
+			}
+		}
+	}
+	if dyn == nil {
+		d := fmt.Sprintf("%T", fab.tab)
+		if tp, ok := fab.tab.(*Value); ok && tp != nil {
+			d += fmt.Sprintf(" -> %T", *tp)
+			if st, ok := (*tp).(*Struct); ok {
+				for _, f := range st.f {
+					d += fmt.Sprintf(" [%T %v]", f, f)
+				}
+			}
+		}
+		panic(pathAbort{"unsupported: type word of a fabricated itab (" + d + ") at " + fr.site()})
+	}
+	ok := types.Identical(dyn, x.AssertedType)
+	var res Value
+	if ok {
+		res = fab.data
+	} else {
+		res = zero(x.AssertedType)
+	}
+	if x.CommaOk {
+		return Tuple{res, Bool(ok)}
+	}
+	if !ok {
+		panic(&goPanic{val: fmt.Sprintf("interface conversion: interface is %s, not %s", dyn, x.AssertedType), kind: "typeassert", site: fr.site()})
 	}
 	return res
 }
